@@ -178,7 +178,9 @@ func newIndexer(path string, store *ImmuStore, opts *Options) (*indexer, error) 
 
 	tx := NewTx(opts.MaxTxEntries, opts.MaxKeyLen)
 
-	kvs := make([]*tbtree.KVT, store.maxTxEntries*opts.IndexOpts.MaxBulkSize)
+	// with an injective mapping an entry whose mapped key changed yields two bulk entries:
+	// the new key and the tombstone of the previously mapped key
+	kvs := make([]*tbtree.KVT, 2*store.maxTxEntries*opts.IndexOpts.MaxBulkSize)
 	for i := range kvs {
 		// vLen + vOff + vHash + txmdLen + txmd + kvmdLen + kvmd
 		elen := lszSize + offsetSize + sha256.Size + sszSize + maxTxMetadataLen + sszSize + maxKVMetadataLen
